@@ -36,6 +36,7 @@ void operator delete[](void* p, std::size_t) noexcept {
 
 int main(int argc, char** argv) {
     verif::Args args = verif::Args::Parse(argc, argv);
+    const bool shard_replay = verif::ParseShardReplay(args);
     verif::Result res;
     res.tier = args.tier;
     res.seed = args.seed;
@@ -65,10 +66,11 @@ int main(int argc, char** argv) {
     } else if (args.sub == "c11") {
         c11::Run(args, res);
     } else if (args.sub == "c14") {
-        c14::Run(args, res);
+        res.property = "C14";
+        verif::RunIsolated(res, [&](verif::Result& r) { c14::Run(args, r); });
     } else {
         std::fprintf(stderr, "usage: sys c14 ...\n");
         return 2;
     }
-    return res.Write(args.out.c_str()) ? 0 : 2;
+    return verif::Finish(args, res, shard_replay);
 }
